@@ -12,24 +12,30 @@ pub fn fragment_target_count(module: &Module, f: &Function) -> usize {
         Some(r) => match &r.binding {
             Some(b) => {
                 // Builtins don't have render targets.
-                if matches!(b, naga::Binding::Location { .. }) {
-                    1
-                } else {
-                    0
-                }
+                location_target_count(b)
             }
             None => {
                 // Fragment functions should return a single variable or a struct.
+                // Locations may be sparse, so use the highest location to size the targets.
                 match &module.types[r.ty].inner {
                     naga::TypeInner::Struct { members, .. } => members
                         .iter()
-                        .filter(|m| matches!(m.binding, Some(naga::Binding::Location { .. })))
-                        .count(),
+                        .filter_map(|m| m.binding.as_ref().map(location_target_count))
+                        .max()
+                        .unwrap_or(0),
                     _ => 0,
                 }
             }
         },
         None => 0,
+    }
+}
+
+fn location_target_count(binding: &naga::Binding) -> usize {
+    // The number of targets required to address this location.
+    match binding {
+        naga::Binding::Location { location, .. } => *location as usize + 1,
+        naga::Binding::BuiltIn(_) => 0,
     }
 }
 
